@@ -40,20 +40,20 @@ def check_c15(case, ctx):
 
     # the documented parameter ORDER: rate(teams, ranks, scores, tau, limit_sigma) and Model(mu, sigma, beta, kappa, gamma, tau, limit_sigma)
     # passed positionally mean the same as passed by keyword
-    from vf.osk import GAMMAS, classes, mk_model, mk_teams, vals
+    from vf.osk import GAMMAS, classes, guarded, mk_model, mk_teams, vals
 
     if (t is not None or b is not None) and (t is not None or ok_model_tau):
         m_kw = mk_model(cfg)
-        kw_res = vals(m_kw.rate(mk_teams(m_kw, teams), ranks=outcome.get("ranks"), scores=outcome.get("scores"), tau=t, limit_sigma=b))
+        kw_res = vals(guarded(m_kw.rate, mk_teams(m_kw, teams), what="rate (keywords)", ranks=outcome.get("ranks"), scores=outcome.get("scores"), tau=t, limit_sigma=b))
         m_pos = mk_model(cfg)
-        pos_res = vals(m_pos.rate(mk_teams(m_pos, teams), outcome.get("ranks"), outcome.get("scores"), t, b))
+        pos_res = vals(guarded(m_pos.rate, mk_teams(m_pos, teams), outcome.get("ranks"), outcome.get("scores"), t, b, what="rate (positional)"))
         ctx.called(2)
         _cmp(pos_res, kw_res, "positional-rate-arguments", f"rate(teams, ranks, scores, {t!r}, {b!r}) positionally vs by keyword")
     cls = classes()[cfg["kind"]]
     gfun = GAMMAS[cfg["gamma"]] if cfg.get("gamma", "default") != "default" else None
     if gfun is not None and plain is not None:
         m_posc = cls(cfg["mu"], cfg["sigma"], cfg["beta"], cfg["kappa"], gfun, cfg["tau"], cfg["limit_sigma"])
-        posc = vals(m_posc.rate(mk_teams(m_posc, teams), **{k: v for k, v in outcome.items()}))
+        posc = vals(guarded(m_posc.rate, mk_teams(m_posc, teams), what="rate (positionally constructed model)", **{k: v for k, v in outcome.items()}))
         ctx.called()
         _cmp(posc, plain, "positional-constructor-arguments", "Model(mu, sigma, beta, kappa, gamma, tau, limit_sigma) positionally vs by keyword")
 
